@@ -340,4 +340,18 @@ example : notify (fun o => if o = 1 then .unwatch 1 else .nothing) [1, 2, 3] = (
 
 end Reentrant
 
+/-! ### the blocking client's session glue -/
+
+/-- **every connection of the blocking client gets declaration objects of its own** (over the regenerated skeleton of
+`GeckoSpa._on_config_received`): on every path that ends normally the pack, the config and the log declaration classes are each
+INSTANTIATED (once each, in this order, over this connection's structure) before the full block is requested - none is looked up in
+something that outlives the connection (rounds 14 and 15: declaration objects kept per process read another connection's block) -/
+theorem blocking_declarations_are_made_for_each_connection :
+    Coop.everyNormalEndDid (fun a => a.kind == .call && a.name == "GeckoPack") Skeletons.sk_spa__GeckoSpa__on_config_received = true ∧
+    Coop.everyNormalEndDid (fun a => a.kind == .call && a.name == "GeckoConfigStruct") Skeletons.sk_spa__GeckoSpa__on_config_received = true ∧
+    Coop.everyNormalEndDid (fun a => a.kind == .call && a.name == "GeckoLogStruct") Skeletons.sk_spa__GeckoSpa__on_config_received = true ∧
+    Coop.everyNormalEndDid (fun a => a.kind == .call && a.name == "self.struct.retry_request") Skeletons.sk_spa__GeckoSpa__on_config_received = true ∧
+    ((Coop.actions .call Skeletons.sk_spa__GeckoSpa__on_config_received).filter fun n => n == "GeckoPack" || n == "GeckoConfigStruct" || n == "GeckoLogStruct") =
+      ["GeckoPack", "GeckoConfigStruct", "GeckoLogStruct"] := by decide +kernel
+
 end GeckoModel.C03
